@@ -20,7 +20,7 @@ makes the schedules as adversarial as it can:
     window of `self._num_x += 1`), and which checks, at the moment a new
     trial is being created for a group, that no earlier trial of that group
     is still pending; one algorithm is an Evolution that keeps its whole
-    population and whose population update takes 4 ms, so that a feedback
+    population and whose population update takes 3 ms, so that a feedback
     whose effect is lost is visible;
   * optionally all workers finish their trials at the same moment (soft
     rendezvous), with rewards that improve with every trial;
@@ -198,7 +198,7 @@ _ALGOS = {
     # lost shows up as a missing member of the population.
     'evo-keep-all': ("ev.Evolution(ev.selectors.Random(1, seed={seed}) >> ev.mutators.Uniform(seed={seed}), "
                      "population_init=(pg.geno.Random(seed={seed}), 2), "
-                     "population_update=ev.Lambda(slow) >> ev.selectors.Last(1000) >> ev.Lambda(slow))"),
+                     "population_update=ev.selectors.Last(1000) >> ev.Lambda(slow))"),
     'dedup-auto': ("pg.geno.Deduping(ev.hill_climb(ev.mutators.Uniform(seed={seed}), batch_size=2, "
                    "init_population_size=2, seed={seed}), "
                    "hash_fn=lambda d: hash(tuple(d.to_numbers())), "
@@ -209,7 +209,7 @@ _ALGOS = {
 def _slow_identity(dna_list):
   """Population update step that takes a while (inside Evolution's lock)."""
   if getattr(_tls, 'worker', False):
-    time.sleep(2e-3)
+    time.sleep(3e-3)
   return dna_list
 
 
@@ -740,12 +740,13 @@ def _pressure(seed):
   return [
       dict(base, W=4, N=12, layout='none', actions=('done',), algo='random', trace=True,
            salt=seed),
-      dict(base, W=6, N=12, layout='names', actions=('done', 'done2'), algo='evo-keep-all',
-           trace=True, salt=seed + 1),
+      # (no tracer: a lost population update needs feedbacks a few ms apart)
+      dict(base, W=6, N=18, layout='names', actions=('done', 'done2'), algo='evo-keep-all',
+           trace=False, salt=seed + 1),
       dict(base, W=3, N=9, layout='ints', actions=('done',), algo='regevo', trace=False,
            salt=seed + 2),
-      dict(base, W=8, N=16, layout='none', actions=('done',), algo='evo-keep-all', trace=True,
-           p_cold=0.01, p_hot=0.5, salt=seed + 3),
+      dict(base, W=8, N=24, layout='none', actions=('done',), algo='evo-keep-all', trace=False,
+           salt=seed + 3),
   ]
 
 
@@ -790,7 +791,7 @@ def _scenarios(tier, seed):
         yield cfg, (1 if quick else 2)
 
 
-_QUICK_STRIDE = 11
+_QUICK_STRIDE = 12
 
 
 def _witness(cfg, case_id):
